@@ -87,6 +87,14 @@ func (t *decTr) stmt(s ast.Stmt) string {
 			if c, ok := x.Rhs[0].(*ast.CallExpr); ok {
 				return "DCall " + q(t.render(c))
 			}
+			// `v, ok := x.(T)`: v is assigned the assertion's text, ok (unless blank) "ok of <text>"
+			if ta, ok := x.Rhs[0].(*ast.TypeAssertExpr); ok && ta.Type != nil {
+				out := "DAssign " + q(t.render(x.Lhs[0])) + " " + q(t.render(ta))
+				if id, isId := x.Lhs[1].(*ast.Ident); !isId || id.Name != "_" {
+					out += "; DAssign " + q(t.render(x.Lhs[1])) + " " + q("ok of "+t.render(ta))
+				}
+				return out
+			}
 		}
 	case *ast.DeclStmt:
 		// `var x T` without a value: nothing happens
